@@ -179,6 +179,7 @@ func TestC11(t *testing.T) {
 				r.When, r.Then = saved, savedThen
 			}
 			c.Text = gast.RulesString(c.Rules)
+			c.Texts = nil // the resources were rendered before the injection
 			for _, r := range c.Rules {
 				c.SoloTexts[r.Name] = gast.RuleString(r)
 			}
